@@ -515,6 +515,45 @@ class PanicAnalysis:
                             return ("send", r)
         return None
 
+    def peer_dependencies(self, s):
+        """Actor ids whose liveness a channel-liveness (PEER / select-all-disabled) site depends on, or None if the site is
+        not of that kind."""
+        n = s.node
+        W = self.W
+        out = set()
+        if n is not None and n["k"] == "select":
+            for b in n["branches"]:
+                fut = b.get("fut")
+                if fut is None:
+                    continue
+                for x in ir.walk(fut):
+                    if x["k"] == "mcall" and MPSC_RECV in callee_paths(x):
+                        for (cid, end) in W.ep(s.fn, x["recv"]):
+                            if end == "rx":
+                                for (sf, sn, _p) in W.senders_of(cid):
+                                    for a in W.actors_executing(sf, sn):
+                                        out.add(a.id)
+            return out
+        su = self._send_under(s) if n is not None else None
+        if su is None:
+            return None
+        kind, node = su
+        if kind == "send":
+            for (cid, end) in W.ep(s.fn, node["recv"]):
+                if end == "tx":
+                    for (cf, cn, acts) in W.consumers(cid):
+                        for a in acts:
+                            out.add(a.id)
+        else:
+            for (oc, end) in W.ep(s.fn, node):
+                if end == "rx":
+                    for loc, eps in W.holds.items():
+                        if loc[0] == "chan" and (oc, "tx") in eps:
+                            for (cf, cn, acts) in W.consumers(loc[1]):
+                                for a in acts:
+                                    out.add(a.id)
+        return out
+
     def _peer_rule(self, s, actor_status):
         su = self._send_under(s)
         if su is None:
